@@ -6,7 +6,7 @@ import ast
 from typing import Callable, Dict, List, Optional, Sequence, Set, Tuple
 
 from ..analysis import Analysis
-from ..cfg import CFG, Node, is_back, is_exc
+from ..cfg import CFG, Node, branch_of, is_back, is_exc
 from ..model import AnalysisError, FunctionInfo, norm, walk_local
 
 
@@ -56,6 +56,16 @@ class Worklist:
                 if isinstance(c, ast.Call) and isinstance(c.func, ast.Attribute) and c.func.attr in ("append", "appendleft") \
                         and isinstance(c.func.value, ast.Name) and c.func.value.id == self.stack:
                     out.append((n, c))
+        return out
+
+    def mark_values(self, memo: str) -> List[Tuple[str, str]]:
+        """(key text, value text) for `memo[k] = v` marks inside the loop."""
+        out = []
+        for n in self.nodes():
+            if n.kind == "stmt" and isinstance(n.ast, ast.Assign):
+                for tg in n.ast.targets:
+                    if isinstance(tg, ast.Subscript) and norm(tg.value) == memo:
+                        out.append((self.key_text(tg.slice), norm(n.ast.value)))
         return out
 
     def marks(self, memo: str) -> List[Tuple[Node, str]]:
@@ -133,7 +143,7 @@ class Worklist:
         loop header (i.e. the iteration can end normally there)."""
         for n in self.iteration_reach(srcs, removed=removed):
             for (m, l) in n.succ:
-                if m is self.header and l == "loop":
+                if m is self.header and is_back(l):
                     return n
         return None
 
@@ -179,15 +189,17 @@ def check_w1(A: Analysis, rep, rule: str, inst: str, w: Worklist, memo: str, eff
         else:
             for (n, k, ns) in tests:
                 seen_lbl = "T" if ns == "F" else "F"
-                seen_succ = [m for (m, l) in n.succ if l == seen_lbl]
+                seen_succ = [m for (m, l) in n.succ if branch_of(l) == seen_lbl and not is_back(l)]
                 r = w.iteration_reach(seen_succ)
                 badn = [x for x in r if x in effects or x in [m for m, _ in marks] or x in [p for p, _ in pushes]]
                 if badn:
                     d1_fail = "the already-seen branch (line %s) still reaches `%s`" % (n.lineno, norm(badn[0].ast)[:60])
                     break
-                ns_succ = [m for (m, l) in n.succ if l == ns]
+                ns_succ = [m for (m, l) in n.succ if branch_of(l) == ns and not is_back(l)]
                 marks_k = [m for (m, kk) in marks if kk == k]
                 end = w.reaches_backedge(ns_succ, removed=marks_k)
+                if any(branch_of(l) == ns and is_back(l) for (m, l) in n.succ):
+                    end = n
                 if end is not None:
                     d1_fail = "a path from the not-seen edge (line %s) ends the iteration at line %s without marking %s" % (
                         n.lineno, end.lineno, memo)
@@ -211,6 +223,7 @@ def check_w1(A: Analysis, rep, rule: str, inst: str, w: Worklist, memo: str, eff
         cand = [w.key_text(arg)]
         if isinstance(arg, ast.Tuple) and arg.elts:
             cand.append(w.key_text(arg.elts[0]))
+        cand.extend(k for (k, v) in w.mark_values(memo) if v == norm(arg))
         # a popped node pushed back (post-visit marker) is not a successor push
         if any(norm(arg) == t or (isinstance(arg, ast.Tuple) and norm(arg.elts[0]) == t) for t in w.pop_targets):
             continue
@@ -225,7 +238,7 @@ def check_w1(A: Analysis, rep, rule: str, inst: str, w: Worklist, memo: str, eff
         ok_mark = False
         for (n, k, ns) in ts:
             marks_k = [m for (m, kk) in marks if kk == k]
-            ns_succ = [m for (m, l) in n.succ if l == ns]
+            ns_succ = [m for (m, l) in n.succ if branch_of(l) == ns and not is_back(l)]
             others = [p for (p, _c) in pushes if p is not pn]
             r = w.iteration_reach(ns_succ, removed=marks_k)
             if not any(x in others for x in r) and w.reaches_backedge(ns_succ, removed=marks_k) is None:
